@@ -33,6 +33,8 @@ CONFIGS = [
     {"theme": "bold", "background": "#fff"},
     {"theme": "fine"},
     {"theme": "light", "font_family": "serif"},
+    {"scale": 0.0, "border": 0},
+    {"scale": -2.0, "font_size": 0.0},
 ]
 
 
@@ -64,6 +66,11 @@ def wf_document(case, rnd):
             body = '<rect wh="2" text="t"/>'
         else:
             body = f'<config font-family="{a}"/><rect wh="2" text="t"/>'
+    elif src == "cfg-font+background":
+        # both settings flow into the same style sheet
+        cfg["font_family"] = v
+        cfg["background"] = v
+        body = '<rect wh="2" text="t"/>'
     elif src == "cfg-background":
         if rnd.random() < 0.5:
             cfg["background"] = v
